@@ -7,13 +7,8 @@ BUDGET = {'quick': 40.0, 'thorough': 600.0}
 BUDGET_SCALE = {}
 
 LEVEL = {
-    'C01': 'exploration',
-    'C02': 'fault_enumeration',
-    'C14': 'fault_enumeration',
+    'C02': 'fault_enumeration', 'C14': 'fault_enumeration',
     'C10': 'fault_enumeration',
-    'C16': 'exploration',
-    'C09': 'exploration',
-    'C17': 'exploration',
 }
 
 ASSUMPTIONS = [
@@ -25,6 +20,18 @@ ASSUMPTIONS = [
     'Linux, case-sensitive tmpfs, no symlinks; external changes only between '
     'builds; no process death',
 ]
+
+NT_RULES = {
+    'nt_serve_and_exec': 'non-trivial = at least two builds, at least one '
+                         'call served from the cache and one (re-)executed',
+    'nt_rollback_restored': 'non-trivial = at least one commit and one '
+                            'rolled-back (fault-injected) build',
+    'nt_any_build': 'non-trivial = at least one executed cacheable call',
+    'nt_clean': 'non-trivial = a clean after at least one commit',
+    'nt_refused': 'non-trivial = at least one refusal step executed',
+    'nt_threads': 'non-trivial = a build with >1 simulated thread and >2 '
+                  'context switches',
+}
 
 RULES = {
     'C01': 'seeded histories of build/mutate/clean steps over generated '
@@ -487,7 +494,8 @@ def run_case(camp, seed, tier='quick'):
         sc['only_calls'] = camp['only_calls']
     out = {'runs': 0, 'stats': {}, 'violations': [], 'invalid': 0,
            'errors': [], 'verdicts': [], 'nontrivial': False,
-           'shape': None, 'log_digest': None, 'sample': None}
+           'shape': None, 'log_digest': None, 'sample': None,
+           'sched_digests': []}
     mode = camp.get('mode', 'plain')
     if mode == 'plain':
         res = run_scenario(sc)
@@ -528,6 +536,7 @@ def _account(out, sc, res, camp):
     out['verdicts'].append(res['verdict'])
     out['log_digest'] = res.get('log_digest')
     out['stats'] = res.get('stats', {})
+    out['sched_digests'] = res.get('sched_digests', [])
     if res['verdict'] == 'violation':
         out['violations'].append((sc, res))
     elif res['verdict'] == 'invalid':
